@@ -371,7 +371,7 @@ fn suite_roundtrip(r: &mut Report) {
 }
 
 // ------------------------------------------------------------------ suite: malformed inputs (C01 C05 C06) with a watchdog for hangs
-fn suite_malformed(r: &mut Report, current: &Arc<Mutex<String>>) {
+fn malformed_bases() -> (Vec<Vec<u8>>, Vec<Vec<u8>>) {
     let mut bases: Vec<Vec<u8>> = vec![];
     let mut must_accept: Vec<Vec<u8>> = vec![];
     for (i, (_, p)) in make_packets().into_iter().enumerate() { if i % 5 == 0 && !format!("{}", i).is_empty() { if let Ok(b) = p.build_bytes_vec_compressed() { if b.len() < 600 { must_accept.push(b.clone()); bases.push(b); } } } }
@@ -404,6 +404,11 @@ fn suite_malformed(r: &mut Report, current: &Arc<Mutex<String>>) {
               rec(2, 0x8002, &[0xc0, 0x0c]), rec(6, 1, &[0xc0, 0x0c, 0xc0, 0x11, 0, 0, 0, 1, 0xff, 0xff, 0xff, 0xff, 0, 0, 0, 2, 0x80, 0, 0, 0, 0, 0, 0, 3])] {
         must_accept.push(m.clone()); bases.push(m);
     }
+    (bases, must_accept)
+}
+
+fn suite_malformed(r: &mut Report, current: &Arc<Mutex<String>>) {
+    let (bases, must_accept) = malformed_bases();
     for m in &must_accept {
         r.cases += 1;
         *current.lock().unwrap() = hex(m);
@@ -417,7 +422,15 @@ fn suite_malformed(r: &mut Report, current: &Arc<Mutex<String>>) {
         let mut variants: Vec<Vec<u8>> = vec![b.clone()];
         for cut in 0..b.len() { variants.push(b[..cut].to_vec()); }
         for i in 0..b.len() { for d in [1u8, 0xFF] { let mut v = b.clone(); v[i] = v[i].wrapping_add(d); variants.push(v); } for val in [0u8, 0xC0, 0x3F, 0x40] { if b[i] != val { let mut v = b.clone(); v[i] = val; variants.push(v); } } }
-        for v in variants {
+        for v in variants { check_variant(r, current, v); }
+    }
+}
+
+/// one candidate message: header peeks and parse must not panic; if accepted, the result must agree with the RFC envelope
+/// walker (C05, C06, C09) and survive re-serialisation (C11) and the observers (C12)
+fn check_variant(r: &mut Report, current: &Arc<Mutex<String>>, v: Vec<u8>) {
+    {
+        {
             r.cases += 1;
             *current.lock().unwrap() = hex(&v);
             let res = catch_unwind(AssertUnwindSafe(|| {
@@ -461,6 +474,35 @@ fn suite_malformed(r: &mut Report, current: &Arc<Mutex<String>>) {
             }));
             match res { Err(_) => r.fail("C01/C12 panic", hex(&v), String::new()), Ok(fs) => for (c, d) in fs { r.fail(&c, hex(&v), d); } }
         }
+    }
+}
+
+// ------------------------------------------------------------------ suite: seeded random variants (thorough tier)
+struct Rng(u64);
+impl Rng {
+    fn next(&mut self) -> u64 { let mut x = self.0; x ^= x << 13; x ^= x >> 7; x ^= x << 17; self.0 = x; x }
+    fn below(&mut self, n: usize) -> usize { if n == 0 { 0 } else { (self.next() % n as u64) as usize } }
+}
+fn suite_fuzz(r: &mut Report, current: &Arc<Mutex<String>>) {
+    let seed: u64 = std::env::var("VERIF_SEED").ok().and_then(|s| s.parse().ok()).unwrap_or(0);
+    let n: usize = std::env::var("VX_FUZZ_N").ok().and_then(|s| s.parse().ok()).unwrap_or(200000);
+    let mut rng = Rng(seed.wrapping_mul(0x9E3779B97F4A7C15) ^ 0xD1B54A32D192ED03 | 1);
+    let (bases, _) = malformed_bases();
+    for _ in 0..n {
+        let mut v = bases[rng.below(bases.len())].clone();
+        for _ in 0..(1 + rng.below(4)) {
+            match rng.below(7) {
+                0 => { if !v.is_empty() { let i = rng.below(v.len()); v[i] = rng.next() as u8; } }
+                1 => { if !v.is_empty() { let i = rng.below(v.len()); v[i] ^= 1 << rng.below(8); } }
+                2 => { let cut = rng.below(v.len() + 1); v.truncate(cut); }
+                3 => { let i = rng.below(v.len() + 1); v.insert(i, [0u8, 0xC0, 0x3F, 0xFF, 1][rng.below(5)]); }
+                4 => { if v.len() > 13 { let i = 12 + rng.below(v.len() - 12); v[i] = 0xC0; if i + 1 < v.len() { v[i + 1] = rng.below(v.len()) as u8; } } }   // plant a pointer
+                5 => { let o = &bases[rng.below(bases.len())]; if o.len() > 12 { let a = 12 + rng.below(o.len() - 12); let b = a + rng.below(o.len() - a + 1); let i = rng.below(v.len() + 1).max(12.min(v.len())); let ins = o[a..b].to_vec(); v.splice(i..i, ins); } }   // splice a fragment of another message
+                _ => { if v.len() >= 12 { let i = 4 + rng.below(8); v[i] = rng.below(4) as u8; } }   // perturb a header count
+            }
+        }
+        if v.len() > 2000 { v.truncate(2000); }
+        check_variant(r, current, v);
     }
 }
 
@@ -530,9 +572,10 @@ fn main() {
                 "roundtrip" => Report::new("roundtrip", "210 generated packets (every constructible record kind x 5 name combinations with shared suffixes, EDNS on every 4th) + 6 messages straddling offset 16384"),
                 "malformed" => Report::new("malformed", "every truncation, +-1 and 4 fixed values at every byte of ~45 generated messages (< 600 bytes) and 18 hand-made pointer graphs"),
                 "observers" => Report::new("observers", "20 hostile byte strings as label and as TXT string"),
+                "fuzz" => Report::new("fuzz", "VX_FUZZ_N (default 200000) random variants, seeded by VERIF_SEED, of the base messages of `malformed`: 1-4 mutations each (byte, bit, truncate, insert, planted pointer, spliced fragment, header count)"),
                 _ => Report::new("txt", "text lengths 0,1,253..256,300,508,509,600"),
             };
-            match w2.as_str() { "name_text" => suite_name_text(&mut r), "roundtrip" => suite_roundtrip(&mut r), "malformed" => suite_malformed(&mut r, &cur2), "observers" => suite_observers(&mut r), _ => suite_txt(&mut r) }
+            match w2.as_str() { "name_text" => suite_name_text(&mut r), "roundtrip" => suite_roundtrip(&mut r), "malformed" => suite_malformed(&mut r, &cur2), "fuzz" => suite_fuzz(&mut r, &cur2), "observers" => suite_observers(&mut r), _ => suite_txt(&mut r) }
             let _ = tx.send(r);
         }).unwrap();
         match rx.recv_timeout(std::time::Duration::from_secs(240)) {
